@@ -630,6 +630,10 @@ pub fn gen_c19(rng: &mut Rng) -> Value {
         let reads: Vec<u64> = (0..k).map(|_| *rng.pick(&[0u64, 1, 5, 8, 100, 16384, 20000])).collect();
         st["reads"] = json!(reads);
     }
+    if relative && entry != "fn" && rng.chance(1, 2) {
+        // the caller changes directory between opening the linker and committing it
+        st["chdir_before_commit"] = json!(*rng.pick(&["$R", "$O", "$C"]));
+    }
     set_flav(&mut st, flav(rng));
     steps.push(st);
     if relative && rng.chance(1, 2) {
